@@ -244,6 +244,7 @@ class ParseModel(object):
             raise AnalysisError('%s: score matrices over the tag/dep parameters not found' % H)
         self.member_init = {}
         self.estimate = self._estimate_object(locals_, ctor_args)
+        self._queue_subclasses(locals_)
         self.agenda = self._one_local(lambda d: 'priority_queue<parsing::cell_item' in (d.type or '') or (d.dtype or '').startswith('std::priority_queue<parsing::cell_item'),
                                       'agenda (priority_queue<cell_item>)')
         per_word = [n for n, d in locals_.items() if 'vector<std::priority_queue<' in (d.type or '') or 'vector<std::priority_queue<' in (d.dtype or '')]
@@ -723,6 +724,46 @@ class ParseModel(object):
                     const_y = not [z for z in cxx.subterms(y) if z[0] in ('var', 'mem', 'call', 'mcall', 'idx')]
                     return ('call', 'rules:unary' if const_y else 'rules:unary-with-second-id', (x,))
         return t
+
+    def _queue_subclasses(self, locals_):
+        """A local whose class derives from std::priority_queue<..> and adds no data is that queue -- provided every member function
+        it redefines hands its arguments on to the queue's own, unconditionally.  A redefinition that does anything else (a push that
+        drops items, a pop that skips) is reported: every rule below reads `q.push(x)` as "x is in the queue"."""
+        from .core import StructuralViolation
+        for name, d in list(locals_.items()):
+            tname = (d.type or '').replace('const ', '').replace('class ', '').replace('struct ', '').strip(' &*').split('::')[-1]
+            rec = self.decls.get(tname) if hasattr(self, 'decls') else None
+            if rec is None or not isinstance(rec, cxx.N) or rec.kind != 'CXXRecordDecl' or not (rec.type or '').startswith('bases:'):
+                continue
+            bases = rec.type[6:].split(';')
+            dbases = (rec.dtype or rec.type)[6:].split(';')
+            if len(bases) != 1 or 'priority_queue<' not in dbases[0] + bases[0]:
+                continue
+            if [k for k in rec.kids if k.kind == 'FieldDecl']:
+                raise AnalysisError('%s:%s %s: a queue class with data members of its own' % (H, rec.line, tname))
+            for m in rec.kids:
+                if m.kind != 'CXXMethodDecl' or not any(c.kind == 'CompoundStmt' for c in m.kids) or m.name.startswith('operator'):
+                    continue
+                ps = [p_.name for p_ in m.kids if p_.kind == 'ParmVarDecl']
+                body = cxx.body_of(m)
+                fwd = []
+                for st_ in body.kids:
+                    x = cxx.strip(st_)
+                    if x.kind == 'ReturnStmt' and x.kids:
+                        x = cxx.strip(x.kids[0])
+                    if x.kind == 'CXXMemberCallExpr' and x.kids and cxx.strip(x.kids[0]).kind == 'MemberExpr' and cxx.strip(x.kids[0]).name == m.name \
+                            and any(y.kind == 'CXXThisExpr' for y in x.kids[0].walk()):
+                        args = [cxx.strip(a_) for a_ in x.kids[1:]]
+                        if [a_.ref for a_ in args if a_.kind == 'DeclRefExpr'] == ps and len(args) == len(ps):
+                            fwd.append(st_)
+                jumps = [y for y in body.walk() if y.kind in ('ReturnStmt', 'CXXThrowExpr', 'GotoStmt') and not any(y is f_ or f_ in list(y.walk()) or y in list(f_.walk()) for f_ in fwd)]
+                if len(fwd) != 1 or jumps:
+                    raise StructuralViolation('R-model', '%s:%s %s::%s' % (H, m.line, tname, m.name), 'agenda:%s:redefined' % m.name,
+                                              '`%s` (line %s) is a %s whose %s() is redefined and does not simply hand its argument%s to the queue\'s own %s on every path: '
+                                              'an item the search pushes may never be in the agenda (or one it pops may not be the best), so the parse that would '
+                                              'have been found through it is lost or a worse one is returned' % (name, d.line, tname, m.name, 's' if len(ps) != 1 else '', m.name))
+            d.type = bases[0]
+            d.dtype = dbases[0]
 
     def _one_local(self, pred, what):
         c = [n for n, d in self.locals.items() if pred(d)]
